@@ -18,7 +18,7 @@ ORDERING = Profile(
     oracles={"order", "framing", "routing"},
     weights={STEP: 8, PUB: 16, SUB: 6, CONNECT: 2, OPEN: 1, DISCONNECT: 1, CLOSE: 1, READY: 1, SETNAME: 1},
     types=[1234, 5000, 8, 80, 33, 32, 30, 31, 0, 2, 9999, 10000, -1, 42, 45, 44],
-    sizes=[0, 8, 65535, 1, 64, 4096, 7],
+    sizes=[0, 8, 65535, 1, 64, 4096, 7, 100000, 65536],  # the manager accepts payloads up to 1 MiB
     max_pending_pubs=12,
     writable_all_bias=2,
     p_logger=4,
@@ -115,6 +115,61 @@ def long_run(cfg, n_frames, res=None):
         sim.close()
 
 
+def stall_case(tc, vsub, nrounds, res=None):
+    """A subscriber stops being writable for `nrounds` consecutive deliveries while two other receivers (one served before it,
+    one after it in either fan-out order) keep receiving; the oracles are the ordinary ones (order, framing, routing)."""
+    from vlib.common import Violation
+    from vlib.world import World
+
+    ALLT = 0x7FFFFFFF
+    cfg = {"timecode": tc, "timing": True, "log": "silent"}
+    ops = []
+    for c, (mid, subs) in enumerate([(10, [1234, 33]), (11, vsub), (12, [ALLT]), (13, [1234, 33, 8])]):
+        ops += [{"op": "open"}, {"op": "connect", "c": c, "ver": "v2", "id": mid, "logger": 0, "daemon": 0, "multi": 0, "name": "", "pid": c}]
+        ops.append({"op": "_drain"})
+        ops += [{"op": "sub", "c": c, "kind": "SUBSCRIBE", "type": t} for t in subs]
+        ops.append({"op": "_drain"})
+    ops += [{"op": "open"}, {"op": "connect", "c": 4, "ver": "v2", "id": 20, "logger": 0, "daemon": 0, "multi": 0, "name": "", "pid": 9}, {"op": "_drain"}]
+    for k in range(nrounds):
+        ops.append({"op": "pub", "c": 4, "type": 1234, "dm": 0, "dh": 0, "size": 8, "src": 20})
+        ops.append({"op": "step", "ready": [4], "writable": [0, 2, 3, 4], "dt": 0.0})
+    ops += [{"op": "pub", "c": 4, "type": 1234, "dm": 0, "dh": 0, "size": 8, "src": 20}, {"op": "_drain"}]
+    trace = {"kind": "stall", "tc": tc, "vsub": vsub, "nrounds": nrounds}
+    w = World(cfg, {"order", "framing", "routing"}, "C05")
+    try:
+        try:
+            for op in ops:
+                if op["op"] == "_drain":
+                    w.drain()
+                else:
+                    w.apply(op)
+            w.drain()
+            w.final_checks()
+        except Violation as v:
+            raise Violation(v.key, v.what, trace)
+        if res is not None:
+            res.shape("stall", tc, tuple(vsub), nrounds // 20)
+            res.count("stalled-subscriber-deliveries", nrounds)
+            res.evaluations += 1
+    finally:
+        w.close()
+
+
+def shard_stall(tc, vsub, nrounds):
+    from vlib.common import Result, Violation
+
+    res = Result()
+    try:
+        stall_case(tc, vsub, nrounds, res)
+    except Violation as v:
+        res.add_finding(v.key, v.what, v.trace)
+    return res
+
+
+def shard_extra(kind, *a):
+    return shard_long(*a) if kind == "long" else shard_stall(*a)
+
+
 def shard_long(cfg, n_frames):
     from vlib.common import Result, Violation
 
@@ -130,14 +185,25 @@ def extra(ctx):
     from vlib.common import run_shards
 
     n = 66000 if ctx.quick else 140000
-    res = run_shards(shard_long, [({"timecode": tc}, n) for tc in (False, True)])
+    jobs = [("long", {"timecode": tc}, n) for tc in (False, True)]
+    for tc in (False, True):
+        for vsub in ([0x7FFFFFFF], [1234], [1234, 33]):
+            for nr in ((30, 70) if ctx.quick else (30, 70, 130, 300)):
+                jobs.append(("stall", tc, vsub, nr))
+    res = run_shards(shard_extra, jobs)
+    res.notes.append("stalled subscriber: one of four receivers is outside the writable snapshot for 30..300 consecutive deliveries of one "
+                     "publisher, subscribed to everything / the type / the type and CLIENT_CLOSED, both header layouts; order, framing and "
+                     "routing oracles as in the generated histories")
     res.notes.append(f"long runs: one connection receives {n} frames (messages, acknowledgements) in both header layouts; msg_count must "
                      "count 1..n across the 2^8, 2^15 and 2^16 (thorough: 2^17) boundaries")
     return res
 
 
 def _replay_extra(tr):
-    long_run(tr["cfg"], tr["frames"])
+    if tr.get("kind") == "stall":
+        stall_case(tr["tc"], tr["vsub"], tr["nrounds"])
+    else:
+        long_run(tr["cfg"], tr["frames"])
 
 
 CHECK = SimCheck(
